@@ -1,0 +1,55 @@
+//go:build verif
+
+// Contracts for the replica precommit path (C07), round 2. Owner: con-c07b. See /verif/DESIGN.md section 3 (C07)
+// and /verif/notes/con-c07b.md. The blocks of (*ImmuStore).precommit (zz_verif_contracts.go) and
+// (*ImmuStore).performPrecommit (zz_verif_contracts_c07.go) belong to the same work.
+package store
+
+// validateAgainst (C07): a nil header validates; a header validates only if it announces the transaction's number of
+// entries and its metadata object is Equal() to the transaction's (both nil, or both non-nil with equal serialization).
+//@ func (*OngoingTx).validateAgainst
+//@   ensures nohdr: hdr == nil ==> r0 == nil
+//@   ensures nent: r0 == nil && hdr != nil ==> hdr.NEntries == len(tx.entries)
+//@   ensures md_nil: r0 == nil && hdr != nil && tx.metadata == nil ==> hdr.Metadata == nil
+//@   ensures md_some: r0 == nil && hdr != nil && tx.metadata != nil ==> hdr.Metadata != nil
+//@   ensures md_eq: r0 == nil && hdr != nil && tx.metadata != nil ==> tx.metadata.Equal(hdr.Metadata)
+//@   ensures bad_count: hdr != nil && hdr.NEntries != len(tx.entries) ==> r0 != nil
+//@   assigns nothing
+
+// Equal compares the serializations (TxMetadata.Bytes: attribute map + bytes.Buffer, not modelled): an uninterpreted
+// function of the two metadata objects; a nil operand never compares equal.
+//@ func (*TxMetadata).Equal
+//@   pure
+//@   ensures nilarg: (md == nil || amd == nil) ==> !r0
+
+// ASSUMED (attribute maps are not modelled): read-only.
+//@ func (*TxMetadata).IsEmpty
+//@   assigns nothing
+
+//@ func (*TxMetadata).HasExtraOnly
+//@   assigns nothing
+
+// ASSUMED (the duplicate check uses a Go map; Precondition.Validate is a dynamic call): no caller-visible write.
+//@ func (*ImmuStore).validateEntries
+//@   ensures limit: r0 == nil ==> len(entries) <= s.maxTxEntries
+//@   assigns nothing
+
+//@ func (*ImmuStore).validatePreconditions
+//@   assigns nothing
+
+// (*OngoingTx).hasPreconditions / checkPreconditions: blocks of con-c05 (zz_verif_contracts_c05.go).
+
+// setKey copies the key into the holder's key buffer.
+//@ func (*TxEntry).setKey
+//@   assigns e, e.k
+
+// ASSUMED (TxEntryDigest returns a closure: dynamic calls; the hash tree is C08's): BuildHashTree writes the holder's
+// hash tree and, in the header, only Eh; it fails for header versions it has no entry digest for.
+//@ func (*Tx).BuildHashTree
+//@   requires hdr: tx.header != nil
+//@   ensures ver: r0 == nil ==> tx.header.Version == 0 || tx.header.Version == 1
+//@   ensures keep_hdr: tx.header == old(tx.header)
+//@   ensures keep_ver: tx.header.Version == old(tx.header.Version)
+//@   ensures keep_nent: tx.header.NEntries == old(tx.header.NEntries)
+//@   ensures keep_md: tx.header.Metadata == old(tx.header.Metadata)
+//@   assigns internal, tx.header
